@@ -3,6 +3,7 @@ package main
 // Generators for Sqrt (C05), conversions (C14), Context (C19), raw access (C20), setters (C02).
 
 import (
+	"encoding/json"
 	"fmt"
 	"math"
 	"math/big"
@@ -94,7 +95,7 @@ func (g *Gen) int64v() int64 {
 
 func (g *Gen) uint64v() uint64 {
 	switch g.intn(4) {
-	case 0:
+	case 0, 1:
 		return uint64Edges[g.intn(len(uint64Edges))]
 	default:
 		return g.r.Uint64() >> uint(g.intn(64))
@@ -140,7 +141,37 @@ func (g *Gen) genSetters(p *Prog) {
 		if g.chance(0.05) {
 			w = "-"
 		}
+		if g.chance(0.3) {
+			// a reused receiver that held a longer value, then an integer whose bit length over-estimates
+			// its decimal word count (2^k, 2^k-1, 10^j-1, 10^j): every word of the new mantissa must be written
+			long := g.finite()
+			long.Digits = trimZeros(g.digitsPattern(40 + g.intn(80)))
+			long.Prec = uint(len(long.Digits))
+			z = p.Load(long)
+			if g.chance(0.5) {
+				p.setprec(z, g.prec(true))
+			}
+			v := new(big.Int)
+			switch g.intn(4) {
+			case 0:
+				v.Lsh(big.NewInt(1), uint(1+g.intn(260)))
+			case 1:
+				v.Lsh(big.NewInt(1), uint(1+g.intn(260)))
+				v.Sub(v, big.NewInt(1))
+			case 2:
+				v.Exp(big.NewInt(10), big.NewInt(int64(19*(1+g.intn(4)))), nil)
+				v.Sub(v, big.NewInt(int64(1+g.intn(3))))
+			default:
+				v.Lsh(big.NewInt(1), uint(63*(1+g.intn(4))))
+				v.Add(v, big.NewInt(int64(g.intn(1000))))
+			}
+			w = bigToWords(v)
+		}
 		p.Exec(fmt.Sprintf("setint %d %d %s", z, sign, w))
+		if g.chance(0.5) {
+			p.Exec(fmt.Sprintf("int %d", z))
+			p.Exec(fmt.Sprintf("minprec %d", z))
+		}
 	default:
 		sign := g.intn(2)
 		num := g.bigIntWords(g.maxDig / 2)
@@ -194,6 +225,15 @@ func (g *Gen) genConv(p *Prog) {
 		case 1: // integer with trailing zeros: MinPrec = exp cases
 			v := digitsToInt(g.digitsPattern(1 + g.intn(25)))
 			x = intToVal(v, int64(g.intn(8)), g.intn(2) == 0, uint(g.intn(30)), g.mode())
+		case 4: // integers whose digits exactly fill 2..5 words (no shift needed on conversion)
+			d := g.digitsPattern(19 * (2 + g.intn(4)))
+			if d[0] == '0' {
+				d = "7" + d[1:]
+			}
+			x = Val{Form: 1, Neg: g.intn(2) == 0, Digits: d, Exp: int64(len(d)), Prec: uint(len(d)), Mode: g.mode()}
+			if d[len(d)-1] == '0' {
+				x.Digits = d[:len(d)-1] + "3"
+			}
 		case 2: // digits exactly up to the point, or one beyond
 			d := g.digitsPattern(1 + g.intn(30))
 			x = Val{Form: 1, Neg: g.intn(2) == 0, Digits: trimZeros(d), Exp: int64(len(d) - g.intn(3)), Mode: g.mode()}
@@ -205,10 +245,14 @@ func (g *Gen) genConv(p *Prog) {
 		}
 	}
 	v := p.Load(x)
-	ops := []string{"int64", "uint64", "int", "rat", "isint", "minprec", "sign"}
+	ops := []string{"int64", "uint64", "int", "rat", "isint", "minprec", "sign", "int", "text"}
 	for _, op := range ops {
 		if g.chance(0.6) {
-			p.Exec(fmt.Sprintf("%s %d", op, v))
+			if op == "text" {
+				p.Exec(fmt.Sprintf("text %d e -1", v))
+			} else {
+				p.Exec(fmt.Sprintf("%s %d", op, v))
+			}
 		}
 	}
 }
@@ -258,6 +302,26 @@ func (g *Gen) genRaw(p *Prog) {
 		}
 		p.Exec(fmt.Sprintf("setbitsexp %d %s %d", z, ws, e))
 	case 1: // MantExp then SetMantExp
+		if g.chance(0.25) {
+			// BitsExp must denote the magnitude whatever the history of the variable: zeros made from finite values
+			v := g.finite()
+			xi := p.Load(v)
+			p.Exec(fmt.Sprintf("bitsexp %d", xi))
+			switch g.intn(5) {
+			case 0:
+				p.Exec(fmt.Sprintf("setuint64 %d 0", xi))
+			case 1:
+				p.Exec(fmt.Sprintf("sub %d %d %d", xi, xi, xi))
+			case 2:
+				p.setprec(xi, 0)
+			case 3:
+				p.Exec(fmt.Sprintf("setmantexp %d %d %d", xi, xi, int64(decimal.MinExp)-int64(v.Exp)-int64(1+g.intn(5))))
+			default:
+				p.Exec(fmt.Sprintf("setbitsexp %d %s %d", xi, "0,0", g.intn(10)))
+			}
+			p.Exec(fmt.Sprintf("bitsexp %d", xi))
+			return
+		}
 		x := p.Load(g.any())
 		m := p.Load(g.receiver(g.prec(true), g.mode()))
 		if g.chance(0.15) {
@@ -557,6 +621,40 @@ func (g *Gen) genText(p *Prog) {
 
 // genRoundTrip: Text/MarshalText with precision -1, parsed back (C11).
 func (g *Gen) genRoundTrip(p *Prog) {
+	if g.chance(0.08) {
+		// zeros and infinities of both signs, with and without history, through every text interface
+		var xi int
+		neg := g.intn(2)
+		switch g.intn(4) {
+		case 0:
+			xi = p.Load(Val{Form: 0, Neg: neg == 1, Prec: g.prec(true), Mode: g.mode()})
+		case 1:
+			xi = p.Load(Val{Form: 2, Neg: neg == 1, Prec: g.prec(true), Mode: g.mode()})
+		case 2: // -0 = (-x) * 0
+			v := g.finite()
+			v.Neg = neg == 1
+			xi = p.Load(v)
+			z := p.Load(Val{Form: 0, Prec: 5})
+			p.Exec(fmt.Sprintf("mul %d %d %d", xi, xi, z))
+		default: // x - x under ToNegativeInf is -0
+			v := g.finite()
+			v.Mode = decimal.ToNegativeInf
+			xi = p.Load(v)
+			p.Exec(fmt.Sprintf("sub %d %d %d", xi, xi, xi))
+		}
+		p.Exec(fmt.Sprintf("marshaltext %d", xi))
+		p.Exec(fmt.Sprintf("marshaljson %d", xi))
+		b, _ := p.vars[xi].MarshalText()
+		z := p.Load(Val{Form: 0, Prec: uint(g.intn(5)), Mode: g.mode()})
+		p.Exec(fmt.Sprintf("unmarshaltext %d %x", z, string(b)))
+		p.Exec(fmt.Sprintf("sign %d", z))
+		p.Exec(fmt.Sprintf("text %d g -1", z))
+		j, _ := json.Marshal(p.vars[xi])
+		z2 := p.Load(Val{Form: 0, Prec: uint(g.intn(5)), Mode: g.mode()})
+		p.Exec(fmt.Sprintf("unmarshaljson %d %x", z2, string(j)))
+		p.Exec(fmt.Sprintf("text %d g -1", z2))
+		return
+	}
 	f := textFormats[g.intn(len(textFormats))]
 	x := g.valForText(f == 'f')
 	if g.chance(0.1) && f != 'f' && x.Form == 1 {
@@ -613,12 +711,28 @@ func (g *Gen) genParse(p *Prog) {
 			n = 1 + g.intn(g.maxDig*3)
 		}
 		m := digs(n, "0123456789")
+		if g.chance(0.15) {
+			// whole groups of leading zeros and total digit counts at multiples of the word size
+			// (the digit scanner stores complete 19-digit groups on a separate path)
+			total := 19 * (1 + g.intn(4))
+			lead := []int{19, 20, 38, 18, 1 + g.intn(40)}[g.intn(5)]
+			if base == 0 && g.chance(0.5) {
+				total++ // base 0: prefix detection consumes the first '0'
+			}
+			if lead > total {
+				lead = total
+			}
+			m = strings.Repeat("0", lead) + digs(total-lead, "0123456789")
+			if g.chance(0.3) {
+				m = strings.Repeat("0", total)
+			}
+		}
 		if g.chance(0.5) {
 			k := g.intn(len(m) + 1)
 			m = m[:k] + "." + m[k:]
 		}
 		if g.chance(0.3) {
-			m = g.shaped(int(prec)+1) // rounding-relevant tails
+			m = g.shaped(int(prec) + 1) // rounding-relevant tails
 			if g.chance(0.5) {
 				k := g.intn(len(m) + 1)
 				m = m[:k] + "." + m[k:]
